@@ -91,4 +91,47 @@ theorem rect_cleanSitesBag {f : CRows → Int → Nat → CleanResult} (hf : IsC
       rw [hf.neg _ _ _ (by omega)]
       exact this
 
+/-! ### `Replace` with a regular expression (new sequences supplied) -/
+
+theorem regexSeqs_names (ps : List (String × Seq)) (seqs : List Seq) :
+    (regexSeqs ps seqs).map Prod.fst = ps.map Prod.fst := by
+  apply List.ext_getElem
+  · simp [regexSeqs]
+  · intro i h1 h2
+    simp [regexSeqs]
+
+theorem regexSeqs_length (b : Bag) (seqs : List Seq) : (regexSeqs (pairs b) seqs).length = b.rows.length :=
+  length_of_names ((regexSeqs_names _ _).trans (pairs_names b))
+
+theorem replaceRegexBag_fields (seqs : List Seq) (b : Bag) :
+    keys (replaceRegexBag seqs b).1.rows = keys b.rows ∧ (replaceRegexBag seqs b).1.index = b.index ∧
+    (replaceRegexBag seqs b).1.next = b.next ∧ (replaceRegexBag seqs b).1.isAlign = b.isAlign ∧
+    (replaceRegexBag seqs b).1.alphabet = b.alphabet ∧ (replaceRegexBag seqs b).1.policy = b.policy ∧
+    (replaceRegexBag seqs b).1.length = b.length :=
+  ⟨keys_withSeqs _ _ (regexSeqs_length b seqs), rfl, rfl, rfl, rfl, rfl, rfl⟩
+
+theorem inv_replaceRegexBag (seqs : List Seq) (b : Bag) (h : Inv b) : Inv (replaceRegexBag seqs b).1 :=
+  inv_withSeqs h _ (regexSeqs_length b seqs)
+
+/-- the rows shown after the call are the rows with the supplied sequences -/
+theorem pairs_replaceRegexBag (seqs : List Seq) (b : Bag) :
+    pairs (replaceRegexBag seqs b).1 = regexSeqs (pairs b) seqs :=
+  pairs_withSeqs b.rows _ ((regexSeqs_names _ _).trans (pairs_names b))
+
+/-- a regex `Replace` that did not report an error leaves an alignment rectangular (it ends with the scan of the row
+lengths against the cached length) -/
+theorem rect_replaceRegexBag (seqs : List Seq) {b : Bag} (h : Rect b) (hok : (replaceRegexBag seqs b).2 = false) :
+    Rect (replaceRegexBag seqs b).1 := by
+  by_cases ha : b.isAlign = true
+  · unfold replaceRegexBag at hok ⊢
+    simp only [ha, Bool.true_and, List.any_eq_false, bne_iff_ne, ne_eq, Decidable.not_not] at hok
+    constructor
+    · intro _ r hr; exact hok r hr
+    · intro _ he
+      simp only [] at he ⊢
+      have := withSeqs_length b.rows _ (regexSeqs_length b seqs)
+      rw [he] at this
+      exact h.empty_len ha (List.eq_nil_of_length_eq_zero this.symm)
+  · exact Rect.of_not_align (by simpa [replaceRegexBag] using ha)
+
 end Gv.Proofs.BagAbs
